@@ -27,6 +27,7 @@ type Env struct {
 	defs   map[string]string // instantiated local defs: name -> SMT function symbol
 	defSt  *State
 	where  string
+	cellSt *State // if set: state used for local variables (heapold)
 }
 
 func (e *Env) with(name string, v Val) *Env {
@@ -219,12 +220,16 @@ func (e *Env) ident(name string) Val {
 	if e.locals {
 		if a := e.ex.localByName(name); a != nil {
 			t := a.Type().(*types.Pointer).Elem()
+			cst := e.st
+			if e.cellSt != nil {
+				cst = e.cellSt // heapold(): locals keep their current values while the heap is the entry heap
+			}
 			if e.ex.cells[a] {
-				return Val{T: e.ex.loadLoc(e.st, &Loc{Kind: LCell, Cell: a, Ty: t}), Ty: t}
+				return Val{T: e.ex.loadLoc(cst, &Loc{Kind: LCell, Cell: a, Ty: t}), Ty: t}
 			}
 			// escaping local: its reference is the Alloc's value
 			if v, ok := e.ex.vals[a]; ok && v.Loc == nil {
-				return Val{T: e.ex.loadLoc(e.st, e.ex.locOfRef(v.T, t)), Ty: t}
+				return Val{T: e.ex.loadLoc(cst, e.ex.locOfRef(v.T, t)), Ty: t}
 			}
 		}
 	}
@@ -507,6 +512,11 @@ func (e *Env) resolveType(x ast.Expr) types.Type {
 		}
 	case *ast.ParenExpr:
 		return e.resolveType(x.X)
+	case *ast.MapType:
+		k, v := e.resolveType(x.Key), e.resolveType(x.Value)
+		if k != nil && v != nil {
+			return types.NewMap(k, v)
+		}
 	}
 	return nil
 }
@@ -620,6 +630,20 @@ func (e *Env) call(x *ast.CallExpr) Val {
 			return Val{T: Ite(cmp.T, c.widen(a), c.widen(b)), Ty: a.Ty, Wide: true}
 		}
 		return Val{T: Ite(cmp.T, a.T, b.T), Ty: a.Ty}
+	case "heapold":
+		// the expression evaluated on the entry heap, with local variables at their current values
+		if e.old == nil {
+			panic(e.fail("heapold() not available here"))
+		}
+		n := *e
+		if n.cellSt == nil {
+			n.cellSt = e.st
+		}
+		n.st = e.old
+		return n.eval(x.Args[0])
+	case "deq":
+		a, b := e.eval(x.Args[0]), e.eval(x.Args[1])
+		return Val{T: e.ex.deqTerm(a.T, b.T), Ty: boolT}
 	case "resultof":
 		// the result of the most recent call (on this path) of the callee named in an assert-call clause
 		nm := types.ExprString(x.Args[0])
